@@ -412,6 +412,12 @@ func GenReq(r *hx.Rand, m *Model, tuples []Tuple) Req {
 	ots := m.objTypeNames()
 	ot := hx.Pick(r, ots)
 	var rq Req
+	// probe one stored tuple directly (its own user as subject): makes the validity and the condition of
+	// every kind of tuple (object, wildcard, userset user) observable in the answer
+	if len(tuples) > 0 && r.Chance(1, 5) {
+		t := hx.Pick(r, tuples)
+		return Req{Obj: t.Obj, Rel: t.Rel, User: t.User, Ctx: GenReqCtx(r, m)}
+	}
 	// prefer objects that occur in tuples
 	if len(tuples) > 0 && r.Chance(3, 4) {
 		t := hx.Pick(r, tuples)
